@@ -80,7 +80,7 @@ def senderDomain (e : Event) : Option (Except Err (Option Bytes)) :=
 
 def showReading (r : MemberReading) : String := "m=" ++ hex r.membership ++ ",via=" ++ hex r.authorisedVia
 
-def handle (op : String) (args : Array String) : Option String :=
+def handleOne (op : String) (args : Array String) : Option String :=
   match op, args.toList with
   | "member_reading", [ver, ev] =>
     let v := strBytes ver
@@ -154,5 +154,26 @@ def handle (op : String) (args : Array String) : Option String :=
           some (m ++ "\t" ++ s)
     | _, _, _ => some "bad-op"
   | _, _ => none
+
+/-- `verify_all <ver> <ev|ev|…> <script>`: `VerifyAllEventSignatures` is `VerifyEventSignatures` event by event — model and
+    specification columns are the per-event answers of `verify`, joined; one event outside the model / the quantifier puts
+    the whole op outside. -/
+def handle (op : String) (args : Array String) : Option String :=
+  match op, args.toList with
+  | "verify_all", [ver, evs, script] =>
+    let rs := (evs.splitOn "|").map (fun ev => handleOne "verify" #[ver, ev, script])
+    if rs.any (fun r => r.isNone) then some "bad-op" else
+    let cols := rs.map (fun r => (r.getD "").splitOn "\t")
+    let ms := cols.map (fun c => c.headD "")
+    let ss := cols.map (fun c => (c.drop 1).headD "")
+    if ms.any (fun m => m == "bad-op") then some "bad-op" else
+    match ms.find? (fun m => m.startsWith "skip") with
+    | some m => some m
+    | none =>
+      let m := String.intercalate "," ms
+      match ss.find? (fun s => s.startsWith "unspecified") with
+      | some u => some (m ++ "\t" ++ u)
+      | none => some (m ++ "\t" ++ String.intercalate "," ss)
+  | _, _ => handleOne op args
 
 end V.Driver.SignersOps
